@@ -396,7 +396,7 @@ def gen_multi_names(rng):
             cells = [] if cell_named else sorted({r[jj] for r in rows[:4] for jj in range(ncols) if jj != c and r[jj]})
             for _ in range(20):
                 kind, name = laygen.draw_name(rng, current, cells, raw_ok=not auto, long_max=150)
-                if name not in current:
+                if name not in current and not laygen.name_collides(kind, name, rows):
                     break
             else:
                 continue
